@@ -239,6 +239,38 @@ LEX_CLASSES = {"CharConstError", "TokenError"}
 PARSE_CLASSES = {"UnexpectedTokenError", "ExpectedNameError", "ParserTokenError"}
 
 
+def tree_of(text):
+    """indentation tree of an AstPrinter listing: nodes [label, is_const, children]"""
+    root = ["", False, []]
+    stack = [(-1, root)]
+    for ln in text.split("\n"):
+        if not ln.strip(" "):
+            continue
+        ind = (len(ln) - len(ln.lstrip(" "))) // 2
+        const = "[const=" in ln
+        node = [TREE_STRIP.sub("", ln).lstrip(" "), const, []]
+        while stack and stack[-1][0] >= ind:
+            stack.pop()
+        stack[-1][1][2].append(node)
+        stack.append((ind, node))
+    return root
+
+
+def same_tree(real, model):
+    """real vs model node. The real printer does not descend below an annotated operator node, and
+    prints calls whose name is a constant val as system calls (ConstProp ran before printing)."""
+    rl, ml = real[0], model[0]
+    if rl != ml:
+        ok = (rl.startswith("syscall ") and ml.startswith("call ")) or (rl.startswith("syscallstmt ") and ml == "callstmt ")
+        if not ok:
+            return False
+    if real[1] and (rl.startswith("binaryop ") or rl.startswith("unaryop ")):
+        return True
+    if len(real[2]) != len(model[2]):
+        return False
+    return all(same_tree(a, b) for a, b in zip(real[2], model[2]))
+
+
 def diag_of(obs):
     f = obs.split(" ")
     return (f[1].split("::")[-1], f[2]) if len(f) >= 3 else ("?", "?")
@@ -307,6 +339,7 @@ def run(tier, seed, replay=None):
     # model tie: tokens, diagnostics of the front end, trees
     tie_bad = []
     tie_checked = 0
+    trees_same = trees_skipped = 0
     if drv:
         lex, par = model_lines(drv, sources)
         for i, s in enumerate(sources):
@@ -334,10 +367,15 @@ def run(tier, seed, replay=None):
                     tie_bad.append((i, "parse-accept", rb[:200], mp[:80]))
                 elif rtree.startswith("ok out="):
                     real_tree = bytes.fromhex(rtree.split(" ")[1][4:].replace("-", "")).decode("latin1")
-                    real_tree = TREE_STRIP.sub("", real_tree)
-                    model_tree = bytes.fromhex(mp[5:].replace("-", "")).decode("latin1")
-                    if real_tree != model_tree:
-                        tie_bad.append((i, "tree", real_tree[:300], model_tree[:300]))
+                    model_tree = bytes.fromhex(mp.split(" ")[1].replace("-", "")).decode("latin1")
+                    if mp.endswith("nl=1"):
+                        trees_skipped += 1        # a string literal containing a line break: the listing is not line-structured
+                    elif not same_tree(tree_of(real_tree), tree_of(model_tree)):
+                        tie_bad.append((i, "tree", TREE_STRIP.sub("", real_tree)[:400], model_tree[:400]))
+                    else:
+                        trees_same += 1
+            elif mp.startswith("fuel"):
+                tie_bad.append((i, "model-out-of-fuel", rb[:100], mp))
 
     reported = 0
     seen_why = Counter()
@@ -375,7 +413,7 @@ def run(tier, seed, replay=None):
         "samples": [sources[len(ODD) + 3][:200] if len(sources) > len(ODD) + 3 else sources[0], sources[-1][:300], sources[-2][:300]],
         "outcome_classes": dict(cls.most_common(60)), "failing_inputs": len(bad), "failure_classes": dict(seen_why),
         "model_tie_checked": tie_checked, "model_vs_impl_mismatches": len(tie_bad),
-        "tie_mismatch_kinds": dict(Counter(t[1] for t in tie_bad)),
+        "tie_mismatch_kinds": dict(Counter(t[1] for t in tie_bad)), "trees_identical": trees_same, "trees_skipped": trees_skipped,
         "traces_validated_against_impl": tie_checked - len(tie_bad), "lean": info, "wall_run_s": round(time.time() - t0, 1),
     })
     rep.assumptions += ["ASan/UBSan/_GLIBCXX_ASSERTIONS are the detector of undefined behaviour in the real code",
